@@ -273,6 +273,13 @@ def run(chk):
         add('"x\\%sy"' % c, "OK " + vs("x" + chr(e) + "y"))
         add("b'\\%s'" % c, "OK " + vy(bytes([e])))
         add("r'\\%s'" % c if c != "'" else 'r"\\\'"', "OK " + vs("\\" + c))
+    # raw strings: a backslash is an ordinary character, also right before the closing quote; the first quote ends the literal
+    for q in "'\"":
+        for body in ["\\", "\\\\", "\\\\\\", "a\\", "C:\\tmp\\", "\\n\\", "a\\\\b\\", "\\x4", "\\u12", "é\\", "\\" * 7]:
+            add("r%s%s%s" % (q, body, q), "OK " + vs(body))
+            add("size(r%s%s%s) + 0u" % (q, body, q), "OK " + vu(len(body.encode())))
+            add("r%s%s%s + 'z'" % (q, body, q), "OK " + vs(body + "z"))
+        add("r%sa\\%sb%s" % (q, q, q), "CERRANY")          # the quote after the backslash ends the literal: b' / b" is left over
     # malformed / out-of-range
     for bad in ["'\\x4'", "'\\x'", "'\\xg0'", "'\\u12'", "'\\u123'", "'\\u12g4'", "'\\U0011ffff'", "'\\U00110000'",
                 "'\\ud800'", "'\\udfff'", "'\\U0000d800'", "'\\U1234567'", "'\\8'", "'\\9'", "'\\08'", "'\\1'", "'\\12'",
